@@ -251,7 +251,7 @@ pub fn prop() -> Prop {
         id: "C05",
         check,
         describe,
-        rule: "generated games (all families incl. no infosets) x method x parameters (None, the five presets, RegretParams::new with exponents from {+-inf, 0, +-1e-3, +-1, +-1.5, +-1e3, random}, gamma from {0,1e-3,1,2,1e3,random}) x budget 0..40 (rarely 300; one in ten u64::MAX, u64::MAX-1, 2^63 or 2^40 with threshold +inf, which must stop after the first iteration) x threshold {0,NaN,+-inf,-1,1e-300,0.1,1e9} x threads {1, 2..16, 0, 33, 64, usize::MAX/3+1, usize::MAX/2, usize::MAX}; oracle: no panic, Err only with threads != 1 (ThreadOverflow above usize::MAX/3), valid profile by the C13 predicate, importable, bounds non-negative, not NaN, infinite iff the budget is 0. Non-trivial = T >= 1, N >= 1 and (infinite exponent, or negative/infinite no_positive weight, or more than one thread); distinct by (tree, configuration).",
+        rule: "generated games (all families incl. no infosets) x method x parameters (None, the five presets, RegretParams::new with exponents from {+-inf, 0, +-1e-3, +-1, +-1.5, +-1e3, random}, gamma from {0,1e-3,1,2,1e3,random}) x budget 0..40 (rarely 300; one in ten u64::MAX, u64::MAX-1, 2^63 or 2^40 with threshold +inf, which must stop after the first iteration) x threshold {0,NaN,+-inf,-1,1e-300,0.1,1e9} x threads {1, 2..16 (two thirds of them 2-4), 0, 33, 64, usize::MAX/3+1, usize::MAX/2, usize::MAX}; oracle: no panic, Err only with threads != 1 (ThreadOverflow above usize::MAX/3), valid profile by the C13 predicate, importable, bounds non-negative, not NaN, infinite iff the budget is 0. Non-trivial = T >= 1, N >= 1 and (infinite exponent, or negative/infinite no_positive weight, or more than one thread); distinct by (tree, configuration).",
         max_len: 700,
         cases_quick: 24_000,
         cases_thorough: 800_000,
